@@ -280,7 +280,14 @@ func c14CLIQuery(t *rapid.T) []string {
 	w := rapid.SampledFrom([]string{"how", "do", "I", "compress", "files", "list", "directory", "what", "is", "this", "disk", "usage", "tar", "find"})
 	punct := rapid.SampledFrom([]string{"?", "!", ".", "...", "??", " ?", "? ", " ? ?", ",", ":", "'", "\"", ")", "-", "--", "#", "%", "*", "~", "\\"})
 	var words []string
-	switch rapid.IntRange(0, 6).Draw(t, "cli-shape") {
+	switch rapid.IntRange(0, 7).Draw(t, "cli-shape") {
+	case 7: // the whole query inside one pair of marks (quotes as cmd.exe passes them on, brackets), blanks just inside, or nothing inside
+		pair := rapid.SampledFrom([][2]string{{"'", "'"}, {`"`, `"`}, {"`", "`"}, {"(", ")"}, {"[", "]"}, {"{", "}"}, {"'", `"`}}).Draw(t, "marks")
+		in := rapid.SampledFrom([]string{"", "", " ", "  ", "\t"}).Draw(t, "inside-lead")
+		in2 := rapid.SampledFrom([]string{"", "", " ", "  ", "\t"}).Draw(t, "inside-trail")
+		body := gen.TextOf(w, 0, 4).Draw(t, "inside")
+		out := rapid.SampledFrom([]string{"", "", " "}).Draw(t, "outside")
+		words = []string{out + pair[0] + in + body + in2 + pair[1] + out}
 	case 6: // 995-1000 bytes of text, over the limit only through white space around it (or a final empty argument)
 		body := strings.Repeat("a", rapid.IntRange(995, 1000).Draw(t, "body-len"))
 		pad := rapid.SampledFrom([]string{" ", "  ", "\t", "\n", "\u00a0", "\u3000", "      "})
